@@ -456,3 +456,42 @@ def r9(rr, repo):
             mono = any(e.args[0].startswith('max(self.prev_id, ') or e.args[0].startswith(f'max({shared} - 1, self.prev_id') for e in st)
             rr.ob('the remembered id can only grow', mono, za.mod, st[-1].node, witness=st[-1].args[0], key='timeout-monotone')
     rr.floor('give-up exits of the wait loop', n, 1, za.mod, loop)
+    entry_forms(rr, za, shared)
+
+
+def entry_forms(rr, za, shared):
+    """The expected id at entry of recv(): whatever the caller passes as state (MQ passes the SAME sender state again after a
+    call that timed out), it is never below the remembered id + 1."""
+    entry = [st for st in za.R_recv.body if isinstance(st, ast.Assign) and any(isinstance(t, ast.Name) and t.id == shared for t in st.targets)]
+    if len(entry) != 1:
+        raise Unresolved(f'{za.mod.relpath}: recv(): expected one entry binding of the expected id {shared!r}, found {len(entry)}')
+
+    def leaves(v):
+        if isinstance(v, ast.IfExp):
+            yield from leaves(v.body)
+            yield from leaves(v.orelse)
+        else:
+            yield v
+    params = q.func_params(za.R_recv)
+    k = 0
+    for leaf in leaves(entry[0].value):
+        txt = U(leaf)
+        floor_term = 'self.prev_id + 1' in txt or '1 + self.prev_id' in txt
+        reads_state = len(params) > 1 and any(isinstance(x, ast.Name) and x.id == params[1] for x in ast.walk(leaf))
+        k += 1
+        if not reads_state and floor_term and not isinstance(leaf, ast.Call):
+            rr.holds('entry without caller state: the expected id is the remembered id + 1', za.mod, entry[0], witness=txt, key='entry-own')
+        elif reads_state and isinstance(leaf, ast.Call) and U(leaf.func) == 'max' and floor_term and not leaf.keywords:
+            rr.holds('entry with caller state: the expected id is max(state id, remembered id + 1)', za.mod, entry[0], witness=txt, key='entry-state')
+        elif reads_state and (not floor_term or (isinstance(leaf, ast.Call) and U(leaf.func) == 'min')):
+            rr.violated("entry with caller state: the caller's id can put the expected id below the remembered one - after a timed-out call that adopted a newer id (and kept the per-source sets) the same "
+                        "state comes in again, an older message is accepted and completes the newer set", za.mod, entry[0], witness=txt, key='entry-state')
+        else:
+            rr.unresolved('entry binding of the expected id has an unrecognised form', za.mod, entry[0], witness=txt, key='entry-form')
+    rr.floor('entry forms of the expected id', k, 2, za.mod, entry[0])
+
+
+@rule('C01.R10', 'the expected id never moves back while sets of it are held: it is (re)bound only at entry and to the id of a message process_msg accepted, prev_id only grows (shares C02.R2)')
+def r10(rr, repo):
+    from .c02 import r2 as c02r2
+    c02r2(rr, repo)
